@@ -27,7 +27,10 @@ ALPH = ['a', 'b', 'Z', '0', ' ', '\n', '\r', '\r\n', '#', '.', ':', '=',
         '€', 'e\u0301', '\u2126', 'A\u030a', '\u1100\u1161', '\ufb01',
         '\u00a0', '\u200b', '\u2028', '\u2029', '\x1d', '\x1e',
         '\U0001f600', '\U00010000', '\U0010ffff', '\u0130', '\u00df',
-        '\u01c5', '\u200d', '\ufffd', '\ufffe', '\x7f', '\x1a', '\x08']
+        '\u01c5', '\u200d', '\ufffd', '\ufffe', '\x7f', '\x1a', '\x08',
+        # digits, spaces and letters only Unicode-aware predicates accept
+        '\u0663', '\u00b2', '\u2460', '\uff11', '\u3000', '\u2003',
+        '\u017f', '\u0131', '\u212a', '12', '-3', '1_0']
 
 _ENC_OK = {}
 
